@@ -235,3 +235,19 @@ func vChannelStep() bool {
 	}
 	return true
 }
+
+type vCtxC struct {
+	done chan struct{}
+	err  error
+}
+
+func (c vCtxC) Deadline() (time.Time, bool) { return time.Time{}, false }
+func (c vCtxC) Done() <-chan struct{}       { return c.done }
+func (c vCtxC) Err() error                  { return c.err }
+func (c vCtxC) Value(key any) any           { return nil }
+
+func vCancelledCtx() vCtxC {
+	d := make(chan struct{})
+	close(d)
+	return vCtxC{done: d, err: vErrDecrypt}
+}
